@@ -98,11 +98,11 @@ def run(sid, props, tier):
     props = props or [meta["breaks"]]
     if sh("git -C /repo status --porcelain").stdout.strip():
         sys.exit("/repo is not clean")
-    p = sh(f"git -C /repo apply --3way {d}/patch.diff")
+    p = sh(f"git -C /repo apply {d}/patch.diff")
     if p.returncode != 0:
-        p = sh(f"git -C /repo apply {d}/patch.diff")
+        p = sh(f"git -C /repo apply --3way {d}/patch.diff")
     if p.returncode != 0:
-        sh("git -C /repo checkout -- . && git -C /repo reset -q"); sys.exit("patch does not apply: " + p.stderr[-1000:])
+        sh("git -C /repo reset -q --hard HEAD && git -C /repo clean -fdq"); sys.exit("patch does not apply: " + p.stderr[-1000:])
     res = {}
     try:
         sh("git -C /repo reset -q")
@@ -118,7 +118,7 @@ def run(sid, props, tier):
             cb.append(dict(check=pr, tier=tier, exit=r.returncode, caught=(r.returncode == 1), first_report=first[:300]))
             meta["caught_by"] = cb
     finally:
-        sh("git -C /repo checkout -- . && git -C /repo clean -fdq")
+        sh("git -C /repo reset -q --hard HEAD && git -C /repo clean -fdq")
         # evidence files and replays written while the seed was applied are not evidence of the real tree
         sh("git checkout -- evidence 2>/dev/null; git clean -fdq replays evidence", cwd=ROOT)
     json.dump(meta, open(os.path.join(d, "meta.json"), "w"), indent=1)
